@@ -22,7 +22,9 @@ RULE = ("worlds whose tests write unique tokens to sys.stdout / sys.stderr / .bu
         "capture buffers. Non-trivial = at least one token written by a non-failing test and one by a failing test; "
         "distinct by (world, options)")
 ASSUMPTIONS = ["output written by a failing test after its last result event is shown raw inside that test's window",
-               "children: sys.stderr is sys.stdout (SubProcess feature); tokens are searched in both streams"]
+               "children: sys.stderr is sys.stdout (SubProcess feature); tokens are searched in both streams",
+               "a line of a layer subprocess's output that consists of dots only is a keep-alive line to the parent: a test "
+               "that prints such a line loses it under -j N (KNOWN-FINDING D38); the generators write tokens"]
 TRUSTED = ["CPython unittest 3.12.1 callback protocol (Model/Proto)"]
 KINDS = ("tsu", "ttd", "tstart", "tend")
 
@@ -196,6 +198,34 @@ def run(ctx):
     from harness import corr_streams
     corr_streams.run_streams(ctx)
     cw.standard_check(ctx, cw.corpus_cases(PROP) + gen_cases(ctx), PROP, KINDS, "runner.streams", make_monitor(ctx), extra=tokens_vs_model)
+
+
+def probe_d38(ctx):
+    """a failing test whose output contains a line made of dots only, in a layer run by a -j N subprocess"""
+    import os
+    import random
+    import shutil
+    rng = random.Random(38)
+    w = worlds.gen_world(rng, n_layers=2, tests_per_layer=(1, 1), kinds=["fail"], p_fault=0.0, p_write=0.0)
+    for t in w["tests"]:
+        for k in ("doctest", "rebind", "ownstream", "label"):
+            t.pop(k, None)
+        for p_ in cw.parts_of(t):
+            p_.pop("close", None)
+        t["body"]["stdout_text"] = "DOTS-BEFORE\n....\nDOTS-AFTER\n"
+    d = os.path.join(ctx.tmp, "probe_d38")
+    worlds.materialize(w, d)
+    seq = worlds.run_real(w, {"verbose": 1, "buffer": True}, d)
+    par = worlds.run_real(w, {"verbose": 1, "buffer": True, "processes": 2}, d)
+    shutil.rmtree(d, ignore_errors=True)
+    shown_seq = "DOTS-BEFORE\n....\nDOTS-AFTER" in seq.stdout
+    shown_par = "DOTS-BEFORE\n....\nDOTS-AFTER" in par.stdout
+    return (shown_seq and not shown_par and "DOTS-BEFORE" in par.stdout), (
+        "--buffer -j 2: a line consisting of dots only in the output of a failing test is missing from its report (the "
+        "parent's collectors take it for a keep-alive line); the sequential run shows it")
+
+
+KNOWN_PROBES = {"D38": probe_d38}
 
 
 def replay(ctx, obj):
